@@ -138,6 +138,26 @@ pub fn front(request: &Value) -> Value
 	let header = parse_tree.build_header();
 	out["header_nodes"] = json!(header.num_parse_nodes());
 	out["header_decls"] = json!(header.num_declarations());
+	if request["header_kinds"].as_bool().unwrap_or(false)
+	{
+		// Node-kind monitor over the header's whole node array (the XML dump only follows the declarations): how many
+		// nodes of kinds that only occur inside function bodies or mark private zones does the header hold?
+		const BODY_KINDS: [&str; 15] = [
+			"FunctionBody", "VariableDeclaration", "Assignment", "Loop", "Goto", "Label", "MethodCall", "Comparison", "Then",
+			"ThenElse", "If", "Block", "StartPrivateZone", "EndPrivateZone", "EndlessPrivateZone",
+		];
+		let dump = format!("{:?}", header);
+		let mut counts = serde_json::Map::new();
+		for word in dump.split(|c: char| !c.is_ascii_alphanumeric())
+		{
+			if BODY_KINDS.contains(&word)
+			{
+				let n = counts.get(word).and_then(|v| v.as_u64()).unwrap_or(0);
+				counts.insert(word.to_string(), json!(n + 1));
+			}
+		}
+		out["header_body_kinds"] = Value::Object(counts);
+	}
 	if let Some(source) = source
 	{
 		let xml: Vec<String> = header.as_xml(&tokens, source).collect();
